@@ -1,25 +1,27 @@
 /-!
 # Core/Cache — model for C10 (determinism, independence of earlier checks)
 
-Two models.
+State of the code modelled: /repo after a944eb3, 24b231d, da6a3f3, 5fee81d, e01ac16 (five of the
+seven C10 repairs); `definition-node-order` and `protocol-cache-assumptions` are not applied.
 
 **Model A — order.** Every place in the anchored files where a `set` is iterated on the way to a
 diagnostic text or to a `Value` is a function of the *iteration order* of that set (`order`, a list:
 some permutation of the set's elements) and of the rest of its input. The sites (found by the AST
 scan, `Generated/SetSites.lean`) fall into a few kinds; each kind is one function here:
 
-* `joinRepr` / `joinPlain`              `", ".join(map(repr, S))` / `", ".join(S)`
-  - `siteExtraKwargs`                   signature.py `Signature.bind_arguments` (`extra_kwargs`)
-  - `siteKeysLeft`                      format_strings.py `accept_mapping_args_no_mvv` (`keys_left`)
-  - `siteProtocolStr`                   type_object.py `TypeObject.__str__`
-  - `siteDisallowedKinds`               signature.py `Signature.validate`
+* `siteExtraKwargs`                     signature.py `Signature.bind_arguments`: the extra names in
+                                        call order; the set `keywords_consumed` is only asked `in`
+* `siteKeysLeft`                        format_strings.py `accept_mapping_args_no_mvv`: template
+                                        order; the set `seen_keys` is only asked `in`
+* `siteProtocolStr`                     type_object.py `TypeObject.__str__`: `sorted(members)`
 * `siteProtocolFirstFail`               type_object.py `_is_compatible_with_protocol`: loop over
-                                        `self.protocol_members`, return at the first failing member
+                                        `sorted(self.protocol_members)`, first failing member
+* `siteOrNarrow`                        stacked_scopes.py `OrConstraint.apply`
+                                        (`list(dict.fromkeys(constraints))`: no set any more) +
+                                        `Constraint.apply_to_value` (`one_of`) + `_constrain_value`
+* `siteDisallowedKinds`                 signature.py `Signature.validate` (`", ".join` over a set)
 * `siteFirstSuccess`                    type_object.py `TypeObject.can_assign`: loop over
                                         `other.artificial_bases`, first non-error result wins
-* `siteOrNarrow`                        stacked_scopes.py `OrConstraint.apply`
-                                        (`list(set(constraints))`) + `Constraint.apply_to_value`
-                                        (`one_of`) + `_constrain_value` + `unite_values`
 * `siteTryDefNodes`                     stacked_scopes.py `FunctionScope.suppressing_subscope`
                                         (`list(nodes - old_defn_nodes.get(key, set()))`) +
                                         `uniq_chain` + `unite_values`
@@ -38,22 +40,21 @@ scan, `Generated/SetSites.lean`) fall into a few kinds; each kind is one functio
 * `closureRun`                          worklist `while pending: x = pending.pop(); …`
                                         (checker.py `_get_recursive_typeshed_bases`,
                                         stacked_scopes.py `FunctionScope._resolve_origin`)
+* `old…` (end of part A)                the five repaired sites as they were (regression documentation)
 
 **Model B — history.** Memo tables as explicit state (`memoStep`: checker.py `make_type_object`,
 arg_spec.py `_cached_get_argspec`, `_get_generic_bases_cached`, annotations.py `get_type_alias`)
-and the protocol-compatibility check of type_object.py `TypeObject.can_assign` (:146‥164) with the
+and the protocol-compatibility check of type_object.py `TypeObject.can_assign` with the
 recursion guard `ctx.assumed_compatibilities` (checker.py:228‥242) and `_protocol_positive_cache`
-(`check`): cache key = the other VALUE only (not the mode `ctx.should_exclude_any()`, not the
-assumptions in force, not the generic arguments of the expected protocol — `self_val`; the cache
-lives on the TypeObject of the protocol *class*, shared by `SupportsAbs[int]` and
-`SupportsAbs[str]`); guard key = (self TypeObject, other TypeObject).
+(`check`): cache key = (self_val, other VALUE, exclude-Any mode) — not the assumptions in force;
+guard key = (self TypeObject, other TypeObject).
 
 Not modelled: how `get_attribute_from_value` finds members and how `expected.can_assign(actual)`
-decides one slot (that is the value kernel, C03/C04) — a *world* lists, per (protocol, value), the
-members and per member the slot checks as atoms (`const b`, `anyOk` = succeeds iff Any is not
-excluded, `sub p v` = a nested protocol check); bounds maps (only error / no error); the
-`artificial_bases` retry inside `check` (values with artificial bases are int/float subclasses; it is
-the separate order site `siteFirstSuccess`); `TypedValue._type_object`.
+decides one slot (that is the value kernel, C03/C04) — a *world* lists, per (protocol, variant of its
+generic arguments, value), the members and per member the slot checks as atoms (`const b`, `anyOk` =
+succeeds iff Any is not excluded, `sub p a v` = a nested protocol check); bounds maps (only error /
+no error); the `artificial_bases` retry inside `check` (values with artificial bases are int/float
+subclasses; it is the separate order site `siteFirstSuccess`); `TypedValue._type_object`.
 
 No imports: this file must stay core-only so the driver starts fast.
 -/
@@ -61,31 +62,67 @@ namespace Pya.C10
 
 /-! ## Model A — order sites -/
 
-/-- `", ".join(map(repr, order))` for strings without quotes/backslashes. -/
-def joinRepr (order : List String) : String :=
-  ", ".intercalate (order.map fun s => "'" ++ s ++ "'")
+/-- `", ".join(map(repr, names))` for strings without quotes/backslashes. -/
+def joinRepr (names : List String) : String :=
+  ", ".intercalate (names.map fun s => "'" ++ s ++ "'")
 
-/-- `", ".join(order)`. -/
-def joinPlain (order : List String) : String := ", ".intercalate order
+/-- `", ".join(names)`. -/
+def joinPlain (names : List String) : String := ", ".intercalate names
 
-/-- signature.py `Signature.bind_arguments`:
-`extra_kwargs = set(actual_args.keywords) - keywords_consumed; if extra_kwargs: …` —
-`order` is the iteration order of `extra_kwargs`. `none`: no error from this site. -/
-def siteExtraKwargs (order : List String) : Option String :=
-  if order.isEmpty then none
-  else if order.length == 1 then some ("Got an unexpected keyword argument " ++ joinRepr order)
-  else some ("Got unexpected keyword arguments " ++ joinRepr order)
+/-- Insertion into a sorted list. -/
+def insBy {α : Type} (le : α → α → Bool) (a : α) : List α → List α
+  | [] => [a]
+  | b :: l => if le a b then a :: b :: l else b :: insBy le a l
 
-/-- format_strings.py `accept_mapping_args_no_mvv`:
-`keys_left = {key for key in cs_map.keys() - seen_keys if key is not None};
-if keys_left and not non_literals: yield f"No value specified for keys {', '.join(keys_left)}"`. -/
-def siteKeysLeft (order : List String) (nonLiterals : Bool) : Option String :=
-  if !order.isEmpty && !nonLiterals then some ("No value specified for keys " ++ joinPlain order)
+/-- `sorted(S)` w.r.t. `le`. -/
+def isortBy {α : Type} (le : α → α → Bool) : List α → List α
+  | [] => []
+  | a :: l => insBy le a (isortBy le l)
+
+/-- Python's `str` order (code points; the names used are ASCII identifiers). -/
+def strLe (a b : String) : Bool := decide (a ≤ b)
+
+def natLe (a b : Nat) : Bool := decide (a ≤ b)
+
+/-- `sorted(S)` on character codes. -/
+def isort (l : List Nat) : List Nat := isortBy natLe l
+
+/-- The message of signature.py `Signature.bind_arguments` for the extra keyword names, in the order
+given. `none`: no error from this site. -/
+def extraKwargsMsg (names : List String) : Option String :=
+  if names.isEmpty then none
+  else if names.length == 1 then some ("Got an unexpected keyword argument " ++ joinRepr names)
+  else some ("Got unexpected keyword arguments " ++ joinRepr names)
+
+/-- signature.py `Signature.bind_arguments` after a944eb3:
+`extra_kwargs = [key for key in actual_args.keywords if key not in keywords_consumed]` —
+`keywords`: the dict's keys in call order; `consumed`: the set `keywords_consumed` in its iteration
+order (only membership is asked). -/
+def siteExtraKwargs (keywords : List String) (consumed : List String) : Option String :=
+  extraKwargsMsg (keywords.filter fun k => !consumed.contains k)
+
+/-- The message of format_strings.py `accept_mapping_args_no_mvv` for the keys without a value. -/
+def keysLeftMsg (names : List String) (nonLiterals : Bool) : Option String :=
+  if !names.isEmpty && !nonLiterals then some ("No value specified for keys " ++ joinPlain names)
   else none
 
-/-- type_object.py `TypeObject.__str__`. -/
+/-- Insertion-ordered de-duplication (`unite_values`' dict of hashable values, `uniq_chain`, the keys
+of a dict filled in order). -/
+def dedup {α : Type} [BEq α] : List α → List α
+  | [] => []
+  | a :: l => a :: (dedup l).filter (fun b => !(b == a))
+
+/-- format_strings.py after 24b231d:
+`keys_left = [key for key in cs_map if key is not None and key not in seen_keys]` — `template`: the
+mapping keys of the template in order (`cs_map` is a dict: first occurrences); `seen`: the set
+`seen_keys` in its iteration order (only membership is asked). -/
+def siteKeysLeft (template : List String) (seen : List String) (nonLiterals : Bool) : Option String :=
+  keysLeftMsg ((dedup template).filter fun k => !seen.contains k) nonLiterals
+
+/-- type_object.py `TypeObject.__str__` after da6a3f3: the members are listed `sorted`. `order` is
+the iteration order of the set `protocol_members`. -/
 def siteProtocolStr (base : String) (isProtocol : Bool) (order : List String) : String :=
-  if isProtocol then base ++ " (Protocol with members " ++ joinRepr order ++ ")" else base
+  if isProtocol then base ++ " (Protocol with members " ++ joinRepr (isortBy strLe order) ++ ")" else base
 
 /-- signature.py `Signature.validate`: `", ".join(kind.name for kind in disallowed_previous)`. -/
 def siteDisallowedKinds (order : List String) : String := joinPlain order
@@ -100,11 +137,12 @@ def failText (other m : String) : MemberOutcome → Option String
   | .missing => some (other ++ " has no attribute '" ++ m ++ "'")
   | .conflict => some ("Value of protocol member '" ++ m ++ "' conflicts")
 
-/-- type_object.py `_is_compatible_with_protocol`: `for member in self.protocol_members:` … return
-the first `CanAssignError` (its first line), or `none` = compatible. -/
+/-- type_object.py `_is_compatible_with_protocol` after da6a3f3:
+`for member in sorted(self.protocol_members):` … return the first `CanAssignError` (its first line),
+or `none` = compatible. `order` is the iteration order of the set. -/
 def siteProtocolFirstFail (other : String) (outcome : String → MemberOutcome) (order : List String) :
     Option String :=
-  order.findSome? fun m => failText other m (outcome m)
+  (isortBy strLe order).findSome? fun m => failText other m (outcome m)
 
 /-- type_object.py `TypeObject.can_assign` :155‥161: `for base in other.artificial_bases:` first
 non-error sub-result replaces the error. -/
@@ -131,26 +169,11 @@ def siteSingleton {α : Type} (default : α) (order : List α) : α :=
   | [x] => x
   | _ => default
 
-/-- insertion into a sorted list (`sorted`). -/
-def insSorted (a : Nat) : List Nat → List Nat
-  | [] => [a]
-  | b :: l => if a ≤ b then a :: b :: l else b :: insSorted a l
-
-/-- `sorted(S)` on character codes. -/
-def isort : List Nat → List Nat
-  | [] => []
-  | a :: l => insSorted a (isort l)
-
 /-- format_strings.py `_parse_replacement_field`: `", ".join(f"'{c}'" for c in sorted(allowed))`. -/
 def siteSortedJoin (order : List Nat) : List Nat := isort order
 
 /-- `for x in S: … show_error(…)`: the failures emitted (read as a set). -/
 def siteEmit {α φ : Type} (emit : α → Option φ) (order : List α) : List φ := order.filterMap emit
-
-/-- Insertion-ordered de-duplication (`unite_values`' dict of hashable values, `uniq_chain`). -/
-def dedup {α : Type} [BEq α] : List α → List α
-  | [] => []
-  | a :: l => a :: (dedup l).filter (fun b => !(b == a))
 
 /-- A union member as far as `isinstance` narrowing looks at it: `Any` or `TypedValue(cls)`. -/
 inductive Member | any | typed (c : Nat)
@@ -162,11 +185,13 @@ def applyIsInstance (sub : Nat → Nat → Bool) (c : Nat) : Member → List Mem
   | .any => [.typed c]
   | .typed t => if sub t c then [.typed t] else if sub c t then [.typed c] else []
 
-/-- `OrConstraint.apply` yields one `one_of` constraint whose list is `list(set(constraints))`
-(`order`); `apply_to_values`: for each member of the flattened value, for each constraint in that
-list, the members it leaves; `unite_values` de-duplicates keeping the first occurrence. -/
-def siteOrNarrow (sub : Nat → Nat → Bool) (vals : List Member) (order : List Nat) : List Member :=
-  dedup (vals.flatMap fun v => order.flatMap fun c => applyIsInstance sub c v)
+/-- stacked_scopes.py `OrConstraint.apply` after 5fee81d yields one `one_of` constraint whose list is
+`list(dict.fromkeys(constraints))`: the operands in source order (constraints hash by identity, so
+nothing is merged); `apply_to_values`: for each member of the flattened value, for each constraint
+in that list, the members it leaves; `unite_values` de-duplicates keeping the first occurrence.
+No set is iterated any more: `tests` is the operand order. -/
+def siteOrNarrow (sub : Nat → Nat → Bool) (vals : List Member) (tests : List Nat) : List Member :=
+  dedup (vals.flatMap fun v => tests.flatMap fun c => applyIsInstance sub c v)
 
 /-- `suppressing_subscope`: the definition nodes after `try:`/`with` are those from before the block
 followed by `list(nodes - old)` = the block's own assignments in set order (`order`); `uniq_chain`
@@ -210,6 +235,30 @@ def closureStep (succ : Nat → List Nat) (choice : Nat) (st : List Nat × List 
 def closureRun (succ : Nat → List Nat) (start : Nat) (choices : List Nat) :
     List Nat × List Nat × List Nat :=
   choices.foldl (fun st c => closureStep succ c st) ([], [start], [])
+
+/-! ### Regression documentation: the repaired sites as they were before the fixes
+
+Functions of the iteration order of the set the old code iterated. They are not the model of the
+code under check; the `old…_depends` theorems of Props/C10.lean record why the repairs were needed,
+and the corpus keeps the witnesses so that a re-appearance is reported. -/
+
+/-- signature.py before a944eb3: `", ".join(map(repr, set(keywords) - consumed))`. -/
+def oldExtraKwargs (order : List String) : Option String := extraKwargsMsg order
+
+/-- format_strings.py before 24b231d: `', '.join(keys_left)` over a set. -/
+def oldKeysLeft (order : List String) (nonLiterals : Bool) : Option String := keysLeftMsg order nonLiterals
+
+/-- type_object.py before da6a3f3: members in set order. -/
+def oldProtocolStr (base : String) (order : List String) : String :=
+  base ++ " (Protocol with members " ++ joinRepr order ++ ")"
+
+def oldProtocolFirstFail (other : String) (outcome : String → MemberOutcome) (order : List String) :
+    Option String :=
+  order.findSome? fun m => failText other m (outcome m)
+
+/-- stacked_scopes.py before 5fee81d: `list(set(constraints))`. -/
+def oldOrNarrow (sub : Nat → Nat → Bool) (vals : List Member) (order : List Nat) : List Member :=
+  siteOrNarrow sub vals order
 
 /-! ## Model B — memo tables -/
 
@@ -259,9 +308,11 @@ def World.req (W : World) (p : Pid) (a : Nat) (v : Vid) : List (List Atom) :=
 def World.tobj (W : World) (v : Vid) : Nat := (W.tobjs.lookup v).getD v
 
 /-- Checker state shared by all checks of one process: `_protocol_positive_cache` of every protocol
-TypeObject (entries (protocol, other value)) and `Checker.assumed_compatibilities`. -/
+TypeObject — after e01ac16 keyed by `(self_val, other_val, ctx.should_exclude_any())`, here
+(mode, variant of the generic arguments, protocol, other value) — and
+`Checker.assumed_compatibilities`. -/
 structure St where
-  cache : List (Pid × Vid) := []
+  cache : List (Bool × Nat × Pid × Vid) := []
   stack : List (Pid × Nat) := []
   deriving Repr, Inhabited, DecidableEq
 
@@ -285,18 +336,19 @@ def evalMembers (rec : St → Pid → Nat → Vid → Bool × St) (ex : Bool) : 
     let r := evalAll rec ex st m
     if r.1 then evalMembers rec ex r.2 ms else (false, r.2)
 
-/-- type_object.py `TypeObject.can_assign`, protocol branch (:146‥164). `ex` =
-`ctx.should_exclude_any()`. Fuel: Python recurses until the guard fires. -/
+/-- type_object.py `TypeObject.can_assign`, protocol branch (:146‥167, after e01ac16). `ex` =
+`ctx.should_exclude_any()`. A positive answer is cached also while assumptions are in force (the
+repair `protocol-cache-assumptions` was not applied). Fuel: Python recurses until the guard fires. -/
 def check (W : World) (ex : Bool) : Nat → St → Pid → Nat → Vid → Bool × St
   | 0, st, _, _, _ => (false, st)
   | n + 1, st, p, a, v =>
-    if st.cache.contains (p, v) then (true, st)                     -- :146-148 cache hit
+    if st.cache.contains (ex, a, p, v) then (true, st)              -- :148-151 cache hit
     else if st.stack.contains (p, W.tobj v) then (true, st)         -- :150-151 guard
     else
       let st1 := { st with stack := st.stack ++ [(p, W.tobj v)] }   -- :152 assume_compatibility
       let r := evalMembers (check W ex n) ex st1 (W.req p a v)      -- :153
       let st2 := { r.2 with stack := r.2.stack.dropLast }           -- checker.py:241 pop
-      if r.1 then (true, { st2 with cache := (p, v) :: st2.cache }) -- :162-163
+      if r.1 then (true, { st2 with cache := (ex, a, p, v) :: st2.cache }) -- :165-166
       else (false, st2)
 
 /-- A top-level query of a history. -/
@@ -323,7 +375,12 @@ def answerAfter (W : World) (fuel : Nat) (h : List Query) (q : Query) : Bool :=
 /-- The answer to `q` from a fresh checker. -/
 def answerFresh (W : World) (fuel : Nat) (q : Query) : Bool := answerAfter W fuel [] q
 
-/-! ### Repaired variants (used to classify a history dependence, and as the model of the fixes) -/
+/-! ### Variants of the cache key
+
+`check2 W modeKey argKey topOnly`: `false false false` is the code before e01ac16 (key = the other
+value only: regression documentation), `true true false` is `check`, `true true true` additionally
+refrains from caching while an assumption is in force (the repair not applied; used to classify a
+history dependence as `cacheUnderFailedAssumption`). -/
 
 /-- State of the repaired check: cache entries carry the mode. -/
 structure St2 where
